@@ -78,6 +78,43 @@ Prog(h) ==
                   ELSE StepTyped(p, Aliases[h.steps[i].al], p.ops[h.steps[i].op], i) \o Steps(i + 1)
   IN Setup(p) \o <<Set("s0", ReadAll)>> \o Steps(1) \o <<Deref(V("c"))>>
 
+\* Negative cases: an assignment whose operand has a wrong-but-related type.  The documentation's operator
+\* tables do not list these combinations, so the checker is expected to refuse them; if an implementation
+\* accepts one, the run is still judged event by event (the stored value must belong to the declared type).
+Neg(ty, init, op, rty, rhs) == [ty |-> ty, init |-> init, op |-> op, rty |-> rty, rhs |-> rhs]
+NegPool == {
+  Neg(WArr(WInt), ArrE(<<I(1)>>), "+=", WArr(WFloat), ArrE(<<F(5)>>)),
+  Neg(WArr(WInt), ArrE(<<I(1)>>), "+=", WArr(WStr), ArrE(<<S(<<97>>)>>)),
+  Neg(WArr(WInt), ArrE(<<I(1)>>), "+=", WArr(IF_), ArrE(<<I(2), F(5)>>)),
+  Neg(WArr(WInt), ArrE(<<I(1)>>), "=", WArr(WFloat), ArrE(<<F(5)>>)),
+  Neg(WArr(WInt), ArrE(<<I(1)>>), "=", WArr(WAny), ArrE(<<S(<<97>>)>>)),
+  Neg(WInt, I(1), "=", WFloat, F(3)),
+  Neg(WInt, I(1), "=", IF_, F(3)),
+  Neg(WInt, I(1), "+=", WFloat, F(3)),
+  Neg(WInt, I(1), "=", WVoid, Unit),
+  Neg(WFloat, F(3), "+=", WInt, I(1)),
+  Neg(WFloat, F(3), "=", WInt, I(1)),
+  Neg(WStr, S(<<97>>), "+=", WInt, I(1)),
+  Neg(WStr, S(<<97>>), "=", WArr(WStr), ArrE(<<S(<<97>>)>>)),
+  Neg(WBool, B(TRUE), "&=", WInt, I(1)),
+  Neg(WInt, I(6), "&=", WBool, B(TRUE)),
+  Neg(WInt, I(6), "<<=", WFloat, F(2)),
+  Neg(IF_, I(1), "+=", WInt, I(1)),
+  Neg(IF_, I(1), "=", WStr, S(<<97>>)),
+  Neg(WArr(IF_), ArrE(<<I(1)>>), "=", WArr(WStr), ArrE(<<S(<<97>>)>>)),
+  Neg(WArr(IF_), ArrE(<<I(1)>>), "+=", WArr(WStr), ArrE(<<S(<<97>>)>>)),
+  Neg(WMut(WInt), MutE(WInt, I(1)), "=", WMut(WFloat), MutE(WFloat, F(3))),
+  Neg(WMut(IF_), MutE(IF_, I(1)), "=", WMut(WInt), MutE(WInt, I(3)))
+}
+NegProg(n, al) ==
+  Setup([ty |-> n.ty, init |-> n.init]) \o
+  (IF al = "par"
+   THEN <<FnDecl("w1", <<P("q", WMut(n.ty)), P("v", n.rty)>>, WVoid, <<Asg(n.op, V("q"), V("v")), Ret0>>),
+          CallE(V("w1"), <<V("c"), n.rhs>>), Set("s1", ReadAll), I(0)>>
+   ELSE <<Set("y1", Asg(n.op, Via(al), Hide(n.rty, n.rhs))), Set("s1", ReadAll), I(0)>>)
+NegCases == {[n |-> n, al |-> al] : n \in NegPool, al \in {"c", "arr", "st", "par"}}
+NegSeq == SetToSeq(NegCases)
+
 WatchNames == <<"c", "other", "s0", "y1", "s1", "y2", "s2">>
 HSeq == SetToSeq(Hists)
 N == Len(HSeq)
@@ -116,5 +153,9 @@ Emit ==
   /\ ndJsonSerialize(IOEnv.VERIF_OUT \o "/c13_cases.ndjson",
         [i \in 1..N |-> [id |-> "c13-" \o ToString(i), suite |-> "c13", prog |-> Prog(HSeq[i]), exp |-> Out(i),
                          watch |-> W(i)]])
-  /\ PrintT(<<"CASES", N>>)
+  /\ ndJsonSerialize(IOEnv.VERIF_OUT \o "/c13_neg_cases.ndjson",
+        [i \in 1..Len(NegSeq) |-> [id |-> "c13-neg-" \o ToString(i), suite |-> "c13", negative |-> TRUE,
+                                   prog |-> NegProg(NegSeq[i].n, NegSeq[i].al),
+                                   exp |-> [status |-> "rejected", v |-> VoidV, log |-> <<>>]]])
+  /\ PrintT(<<"CASES", N, Len(NegSeq)>>)
 =============================================================================
